@@ -130,6 +130,7 @@ type Exec struct {
 	pending    []workItem // alternatives discovered on this path
 	threads    *threadState
 	syncLen    int
+	implied    map[int]int
 	inInitGuard bool
 	cpos       int
 
@@ -272,6 +273,13 @@ func (ex *Exec) feasible(c *Term) (bool, Model) {
 			return true, ex.model
 		}
 	}
+	// implied-condition cache (valid for every extension of the path prefix it was proven under)
+	if _, ok := ex.implied[ex.tc.Not(c).id]; ok {
+		return false, nil
+	}
+	if _, ok := ex.implied[c.id]; ok {
+		return true, nil
+	}
 	if ex.solver == nil {
 		ex.inconclusive("symbolic branch in concrete mode")
 	}
@@ -280,6 +288,8 @@ func (ex *Exec) feasible(c *Term) (bool, Model) {
 	r := ex.solver.Check()
 	var m Model
 	switch r {
+	case "unsat":
+		ex.implied[ex.tc.Not(c).id] = len(ex.decisions)
 	case "sat":
 		m = ex.fetchModel()
 	case "unknown":
